@@ -6,6 +6,8 @@ set -u
 exec < /dev/null
 src=$1; name=$2
 wt=/tmp/confirm-$name
+# CONFIRM_SHARED=1: one worktree path and one target dir for a series of seeds (only the crate is rebuilt)
+[ -n "${CONFIRM_SHARED:-}" ] && wt=/tmp/confirm-shared
 log=/verif/seeded/$name/confirm.log
 mkdir -p /verif/seeded/$name
 cp $src/patch.diff $src/demo.rs /verif/seeded/$name/ 2>/dev/null
@@ -14,6 +16,7 @@ git -C /repo worktree remove --force $wt 2>/dev/null
 git -C /repo worktree add -q $wt HEAD || exit 2
 cd $wt
 export CARGO_NET_OFFLINE=true CARGO_TARGET_DIR=$wt/target
+[ -n "${CONFIRM_SHARED:-}" ] && export CARGO_TARGET_DIR=/tmp/confirm-target
 {
 echo "== apply"; git apply $src/patch.diff && echo applied
 echo "== (a) suite with the change"
